@@ -13,8 +13,8 @@ from ..harness import Violation
 
 ID = "C13"
 LEVEL = "exploration"
-RULE = ("Complete enumeration of all histories up to length 3 (quick) / 4 (thorough; plus Hypothesis-sampled histories of length 5..30) over the 21-letter alphabet "
-        "{connect-ok, connect-fail in {transport refuses, AUTH without keys, invalid challenge, silent device, public key answered by another challenge instead of CNXN}, close, close whose transport.close() raises, exec_out, root, shell, streaming_shell, reboot, list, stat, pull, push, "
+RULE = ("Complete enumeration of all histories up to length 3 (quick) / 4 (thorough, plus all length-5 histories over the 15 core letters of the property's quantifier, plus Hypothesis-sampled histories of length 5..30) over the 24-letter alphabet "
+        "{connect-ok (also with a device announcing maxdata 0), creating a streaming_shell generator and consuming it later, connect-fail in {transport refuses, AUTH without keys, invalid challenge, silent device, public key answered by another challenge instead of CNXN}, close, close whose transport.close() raises, exec_out, root, shell, streaming_shell, reboot, list, stat, pull, push, "
         "and list/stat/pull/push with an empty device path}, for AdbDevice and AdbDeviceAsync. Oracle = two-state model: `available` equals the model after every step and is False when observed "
         "from inside transport.connect() of a running attempt; a disconnected operation raises AdbConnectionError (DevicePathInvalidError for an empty path; either when both apply) without a single "
         "transport write and without creating the pull destination; a connected operation is served by the simulator, returns the model's value and never raises AdbConnectionError. "
@@ -39,15 +39,16 @@ OPS = {
     "pull-empty": {"op": "pull", "path": "", "dest": "file"},
     "push-empty": {"op": "push", "src": {"kind": "bytesio", "content": b"data"}, "path": "", "mtime": 5},
 }
-CONNECTS = ["connect-ok", "connect-refused", "connect-nokeys", "connect-badchallenge", "connect-silent", "connect-rechallenged"]
-ALPHABET = CONNECTS + ["close", "close-fails"] + sorted(OPS)
+CONNECTS = ["connect-ok", "connect-ok-maxdata0", "connect-refused", "connect-nokeys", "connect-badchallenge", "connect-silent", "connect-rechallenged"]
+ALPHABET = CONNECTS + ["close", "close-fails", "stream-create", "stream-consume"] + sorted(OPS)
 
 
 def apply_connect_plan(out, letter):
     sim, core = out.sim, out.core
     core.cfg["refuse_connect"] = (letter == "connect-refused")
     sim.cfg["mute"] = (letter == "connect-silent")
-    if letter in ("connect-ok", "connect-refused", "connect-silent"):
+    sim.maxdata = 0 if letter == "connect-ok-maxdata0" else 1048576        # a device may announce maxdata 0; the connection still counts
+    if letter in ("connect-ok", "connect-ok-maxdata0", "connect-refused", "connect-silent"):
         sim.cfg["auth"] = {"mode": "none"}
     elif letter == "connect-nokeys":
         sim.cfg["auth"] = {"mode": "never"}
@@ -62,7 +63,7 @@ def apply_connect_plan(out, letter):
     return kw
 
 
-EXPECT_CONNECT = {"connect-ok": True, "connect-refused": "ConnectionRefusedError", "connect-nokeys": "DeviceAuthError",
+EXPECT_CONNECT = {"connect-ok": True, "connect-ok-maxdata0": True, "connect-refused": "ConnectionRefusedError", "connect-nokeys": "DeviceAuthError",
                   "connect-badchallenge": "InvalidResponseError", "connect-silent": ("AdbTimeoutError", "TcpTimeoutException"),
                   "connect-rechallenged": ("AdbTimeoutError", "TcpTimeoutException")}
 
@@ -74,6 +75,7 @@ def run_history(hist, api):
     observed_in_connect = []
     out.core.connect_hook = lambda: observed_in_connect.append(bool(out.device.available))
     model = False
+    pending_gens = []
     out.tmpdir = None          # created lazily by the first pull step
     steps = []
 
@@ -82,6 +84,10 @@ def run_history(hist, api):
         if letter in CONNECTS:
             # a (re)connect makes adbd challenge from scratch: the bad-challenge index refers to the first challenge of the attempt
             op = apply_connect_plan(out, letter)
+        elif letter == "stream-create":
+            op = {"op": "stream-create"}
+        elif letter == "stream-consume":
+            op = {"op": "stream-consume"}
         elif letter in ("close", "close-fails"):
             op = {"op": "close"}
             if letter == "close-fails" and out.core.connected:
@@ -108,6 +114,23 @@ def run_history(hist, api):
             model = False
             if "exc" in res and not (letter == "close-fails" and res["exc"] == "OSError"):
                 return Violation("close-raised", "step %d: %r" % (i, res))
+        elif letter == "stream-create":
+            if "exc" in res or w1 != w0:
+                return Violation("generator-creation-had-effects", "step %d: creating a streaming_shell generator raised or wrote to the transport: %r" % (i, res))
+        elif letter == "stream-consume":
+            if res.get("ok") == "nothing-pending":
+                pass
+            elif not model:
+                # the availability that counts is the one at the time the command actually runs
+                if res.get("exc") != "AdbConnectionError":
+                    return Violation("disconnected-op-wrong-outcome", "step %d: consuming a streaming_shell generator on a disconnected device: expected AdbConnectionError, got %r" % (i, res))
+                if w1 != w0:
+                    return Violation("bytes-written-while-disconnected", "step %d: consuming a streaming_shell generator on a disconnected device wrote to the transport" % i)
+            else:
+                if res.get("exc") == "AdbConnectionError":
+                    return Violation("connected-op-refused", "step %d: streaming_shell generator consumed on a connected device raised AdbConnectionError" % i)
+                if res.get("ok") != [b"ab", b"cd"]:
+                    return Violation("connected-op-wrong-result", "step %d stream-consume: %r" % (i, res))
         else:
             empty = letter.endswith("-empty")
             if not model:
@@ -140,7 +163,13 @@ def run_history(hist, api):
             for i, letter in enumerate(hist):
                 op, w0 = pre(letter)
                 try:
-                    r = {"ok": runner.run_op_sync(out.device, op, i, out)}
+                    if op["op"] == "stream-create":
+                        pending_gens.append(out.device.streaming_shell("ls", decode=False))     # nothing runs until the generator is consumed
+                        r = {"ok": "created"}
+                    elif op["op"] == "stream-consume":
+                        r = {"ok": list(pending_gens.pop(0)) if pending_gens else "nothing-pending"}
+                    else:
+                        r = {"ok": runner.run_op_sync(out.device, op, i, out)}
                 except env.HarnessError:
                     raise
                 except Exception as e:  # noqa
@@ -154,7 +183,13 @@ def run_history(hist, api):
                 for i, letter in enumerate(hist):
                     op, w0 = pre(letter)
                     try:
-                        r = {"ok": await runner.run_op_async(out.device, op, i, out)}
+                        if op["op"] == "stream-create":
+                            pending_gens.append(out.device.streaming_shell("ls", decode=False))
+                            r = {"ok": "created"}
+                        elif op["op"] == "stream-consume":
+                            r = {"ok": [x async for x in pending_gens.pop(0)] if pending_gens else "nothing-pending"}
+                        else:
+                            r = {"ok": await runner.run_op_async(out.device, op, i, out)}
                     except env.HarnessError:
                         raise
                     except Exception as e:  # noqa
@@ -192,9 +227,16 @@ def check_case(c):
     return v, info
 
 
-def histories(maxlen):
+CORE = ["connect-ok", "connect-refused", "connect-nokeys", "connect-badchallenge", "connect-silent", "close",
+        "exec_out", "root", "shell", "streaming_shell", "reboot", "list", "stat", "pull", "push"]      # the 15 letters of the property's own quantifier
+
+
+def histories(maxlen, core_len=0):
     for n in range(1, maxlen + 1):
         for h in itertools.product(ALPHABET, repeat=n):
+            yield list(h)
+    for n in range(maxlen + 1, core_len + 1):
+        for h in itertools.product(CORE, repeat=n):
             yield list(h)
 
 
@@ -209,11 +251,12 @@ def replay(part, case):
 def run(tier, seed):
     t0 = time.time()
     quick = tier == "quick"
-    maxlen = 3 if quick else 5
+    maxlen = 3 if quick else 4
+    core_len = 0 if quick else 5
 
     def items(shard, nshards):
         i = 0
-        for h in histories(maxlen):
+        for h in histories(maxlen, core_len):
             for api in ("sync", "async"):
                 i += 1
                 if i % nshards == shard:
